@@ -215,7 +215,7 @@ def check_C13(chk):
 def check_C15(chk):
     thorough = chk.tier == "thorough"
     proof_ok = C.proof_stage(chk, "C15")
-    bins = build_all(chk, ["default"])
+    bins = build_all(chk, ["default", "inprocess"])
     if not all(bins.values()):
         return
     S = 4096
@@ -245,8 +245,11 @@ def check_C15(chk):
     chunk = max(1, len(cases) // 12)
     for lo in range(0, len(cases), chunk):
         jobs.append((bins["default"], S, cases[lo:lo + chunk], "default", True))
+    # the in-process transport has no limit of its own: whatever it accepts must arrive complete, however many endpoints a value embeds
+    icases = [{"id": next(nid), "len": 100, "nsend": n - n // 3, "nrecv": n // 3, "nshm": 2, "level": "typed"} for n in (10, 64, 65, 200, 255, 256, 257, 300, 700)]
+    jobs.append((bins["inprocess"], None, icases, "inprocess", False))
     items = run_parallel(jobs)
-    fails, bad = judge(chk, items, lambda it: "1" not in it["case"].get("faults", "") and F.nfds_of(it["case"]) + (1 if F.wire_len(it["case"], it["rec"]) > cap else 0) <= 64,
+    fails, bad = judge(chk, items, lambda it: it["case"].get("flavour") == "inprocess" or ("1" not in it["case"].get("faults", "") and F.nfds_of(it["case"]) + (1 if F.wire_len(it["case"], it["rec"]) > cap else 0) <= 64),
                        "c15", lambda it: F.nfds_of(it["case"]) >= 58)
     chk.coverage["rule"] = ("attachment counts %s.. in sender/receiver/region mixtures %s x data lengths {0, small, one packet, +1, multi-packet} at S=4096 "
                             "(platform level) plus typed-level values with 62..66 attachments; non-trivial = 58 or more attachments" % (counts[:3], mixes))
